@@ -426,6 +426,7 @@ def pred_c10(case, impl, model, ctx):
     if any(l.startswith("CRASH") for l in impl) or len(impl) < len(case.ops):
         return False
     used = fresh = None
+    used_args = fresh_args = None
     k = None
     for o, l in zip(case.ops, impl):
         w = o.split(" ")
@@ -433,10 +434,14 @@ def pred_c10(case, impl, model, ctx):
             k = int(l.split(" ")[1]) if l.startswith("seq ") else None
         if w[0] == "enc" and w[2].startswith("encode"):
             if w[1] == "e":
-                used = l
+                used, used_args = l, w[3:]
             elif w[1] == "f":
-                fresh = l
+                fresh, fresh_args = l, w[3:]
     if used is None or fresh is None or k is None:
+        return None
+    # the predicate speaks about the SAME batch and context on both encoders, both calls accepted (a shrunk script in which the final
+    # call of the used encoder was removed compares unrelated calls: not applicable)
+    if used_args != fresh_args or not used.startswith("frames ") or not fresh.startswith("frames "):
         return None
     fu, ff = used.split(" ")[2:], fresh.split(" ")[2:]
     if len(fu) != len(ff):
